@@ -1,6 +1,189 @@
-//! C03 harnesses (see /verif/kani/README.md for conventions)
+//! C03 (bounded, heap): `BoxedUint` multiplication and squaring at (1,1), (1,2), (2,1), (2,2) limbs.
+//!
+//! The deductive engine proves the slice-level `mul_limbs` / `square_limbs` / Karatsuba helpers; the `BoxedUint`
+//! wrappers (allocation of the result, result width, truncation for the wrapping / checked forms) are checked here on
+//! the real code. A symbolic 64x64 multiplication costs CBMC about 80 s, so the operands are *indices into tables of
+//! edge constants* and the expected product limbs are computed from the same tables by rustc's constant evaluator
+//! (`const` items below: schoolbook multiplication on `u128`), so the reference is one table lookup.
+//! Result widths from the rustdoc: `mul`: "a limb count equal to the sums of the input limb counts"; `wrapping_mul`:
+//! "wrapping to the width of `self`"; `square`: twice the limbs of `self` (like `mul(self, self)`); `checked_mul`
+//! (`CheckedMul`): the product in the width of `self`, none iff it does not fit.
 use crate::*;
+use crate::util::*;
 use crypto_bigint::*;
 
+/// see c16.rs: makes a `#[kani::should_panic]` harness fail unless the call panics for every admitted input
+fn returned_instead_of_panicking() {
+    #[cfg(kani)]
+    unsafe {
+        let p: *const u8 = core::ptr::null();
+        let v = core::ptr::read_volatile(p);
+        core::hint::black_box(v);
+    }
+    #[cfg(not(kani))]
+    crate::src::missed_panic();
+}
+
+const M: u64 = u64::MAX;
+const H: u64 = 1 << 63;
+const fn w(hi: u64, lo: u64) -> u128 { ((hi as u128) << 64) | lo as u128 }
+
+/// one-limb operands: 0, 1, 2, 3, single bits, all-ones (maximal carries), 2^32 +- 1, 2^63 +- 1, MAX - 1
+const A1: [u64; 12] = [0, 1, 2, 3, 0xffff_ffff, 1 << 32, (1 << 32) + 1, H - 1, H, H + 1, M - 1, M];
+/// two-limb operands: zero halves, equal halves, all-ones, single bits, ordered-opposite halves
+const A2: [u128; 12] = [
+    0, 1, M as u128, w(1, 0), w(1, 1), w(M, 0), w(M, M), w(M, M - 1), w(H, 0), w(H, H), w(1, M),
+    w(0x1234_5678_9abc_def0, 0x0fed_cba9_8765_4321),
+];
+
+/// schoolbook product of two 128-bit numbers as four 64-bit limbs (little endian), in `u128` arithmetic
+const fn mul_128(a: u128, b: u128) -> [u64; 4] {
+    let (a0, a1) = (a as u64 as u128, a >> 64);
+    let (b0, b1) = (b as u64 as u128, b >> 64);
+    let p00 = a0 * b0;
+    let p01 = a0 * b1;
+    let p10 = a1 * b0;
+    let p11 = a1 * b1;
+    let w0 = p00 as u64;
+    // column 1: three values < 2^64 each
+    let c1 = (p00 >> 64) + (p01 as u64 as u128) + (p10 as u64 as u128);
+    let w1 = c1 as u64;
+    let c2 = (c1 >> 64) + (p01 >> 64) + (p10 >> 64) + (p11 as u64 as u128);
+    let w2 = c2 as u64;
+    let c3 = (c2 >> 64) + (p11 >> 64);
+    [w0, w1, w2, c3 as u64]
+}
+
+const fn p11() -> [[[u64; 4]; 12]; 12] {
+    let mut t = [[[0u64; 4]; 12]; 12];
+    let mut i = 0;
+    while i < 12 { let mut j = 0; while j < 12 { t[i][j] = mul_128(A1[i] as u128, A1[j] as u128); j += 1; } i += 1; }
+    t
+}
+const fn p12() -> [[[u64; 4]; 12]; 12] {
+    let mut t = [[[0u64; 4]; 12]; 12];
+    let mut i = 0;
+    while i < 12 { let mut j = 0; while j < 12 { t[i][j] = mul_128(A1[i] as u128, A2[j]); j += 1; } i += 1; }
+    t
+}
+const fn p22() -> [[[u64; 4]; 12]; 12] {
+    let mut t = [[[0u64; 4]; 12]; 12];
+    let mut i = 0;
+    while i < 12 { let mut j = 0; while j < 12 { t[i][j] = mul_128(A2[i], A2[j]); j += 1; } i += 1; }
+    t
+}
+/// products A1[i] * A1[j], A1[i] * A2[j], A2[i] * A2[j] as four little-endian limbs
+const P11: [[[u64; 4]; 12]; 12] = p11();
+const P12: [[[u64; 4]; 12]; 12] = p12();
+const P22: [[[u64; 4]; 12]; 12] = p22();
+
+fn idx2<S: Src>(s: &mut S) -> (usize, usize) {
+    let i = s.usize(); let j = s.usize();
+    s.assume(i < 12 && j < 12);
+    (i, j)
+}
+/// `x` has exactly `n` limbs, equal to the low `n` limbs of `p`
+fn is_limbs(x: &BoxedUint, p: &[u64; 4], n: usize) -> bool {
+    let v = x.as_words();
+    if v.len() != n { return false; }
+    let mut ok = v[0] == p[0];
+    if n >= 2 { ok &= v[1] == p[1]; }
+    if n >= 3 { ok &= v[2] == p[2]; }
+    if n >= 4 { ok &= v[3] == p[3]; }
+    ok
+}
+
 harnesses! {
+    /// mul at (1,1) limbs: the exact product in 2 limbs; `a * b` (owned operator) and WideningMul are the same
+    #[kani::unwind(6)]
+    fn c03_boxed_mul_1x1(s) {
+        let (i, j) = idx2(s);
+        let (a, b) = (BoxedUint::from(A1[i]), BoxedUint::from(A1[j]));
+        s.cover(P11[i][j][1] != 0 && P11[i][j][0] != 0);
+        assert!(is_limbs(&a.mul(&b), &P11[i][j], 2));
+        assert!(is_limbs(&a.widening_mul(&b), &P11[i][j], 2));
+        assert!(is_limbs(&(a * b), &P11[i][j], 2));
+    }
+    /// mul at (1,2) and (2,1) limbs: the exact product in 3 limbs, either operand order
+    #[kani::unwind(6)]
+    fn c03_boxed_mul_1x2(s) {
+        let (i, j) = idx2(s);
+        let (a, b) = (BoxedUint::from(A1[i]), BoxedUint::from(A2[j]));
+        s.cover(P12[i][j][2] != 0);
+        assert!(P12[i][j][3] == 0);
+        assert!(is_limbs(&a.mul(&b), &P12[i][j], 3));
+        assert!(is_limbs(&b.mul(&a), &P12[i][j], 3));
+    }
+    /// mul at (2,2) limbs: the exact product in 4 limbs
+    #[kani::unwind(6)]
+    fn c03_boxed_mul_2x2(s) {
+        let (i, j) = idx2(s);
+        let (a, b) = (BoxedUint::from(A2[i]), BoxedUint::from(A2[j]));
+        s.cover(P22[i][j][3] != 0);
+        assert!(is_limbs(&a.mul(&b), &P22[i][j], 4));
+    }
+    /// square at 1 and 2 limbs: the exact square in 2 / 4 limbs (= mul(a, a))
+    #[kani::unwind(6)]
+    fn c03_boxed_square_1_2(s) {
+        let i = s.usize();
+        s.assume(i < 12);
+        assert!(is_limbs(&BoxedUint::from(A1[i]).square(), &P11[i][i], 2));
+        assert!(is_limbs(&BoxedUint::from(A2[i]).square(), &P22[i][i], 4));
+    }
+    /// wrapping_mul at (1,1), (1,2), (2,1), (2,2): the product mod 2^(64 * limbs of self), in the width of self
+    #[kani::unwind(6)]
+    fn c03_boxed_wrapping_mul(s) {
+        let (i, j) = idx2(s);
+        let (a1, b1) = (BoxedUint::from(A1[i]), BoxedUint::from(A1[j]));
+        let (a2, b2) = (BoxedUint::from(A2[i]), BoxedUint::from(A2[j]));
+        assert!(is_limbs(&a1.wrapping_mul(&b1), &P11[i][j], 1));
+        assert!(is_limbs(&a1.wrapping_mul(&b2), &P12[i][j], 1));
+        assert!(is_limbs(&b2.wrapping_mul(&a1), &P12[i][j], 2));
+        assert!(is_limbs(&a2.wrapping_mul(&b2), &P22[i][j], 2));
+    }
+    /// checked_mul at (1,1) and (2,2): some exactly when the product fits the width of self, then equal to it
+    #[kani::unwind(6)]
+    fn c03_boxed_checked_mul(s) {
+        let (i, j) = idx2(s);
+        let (a1, b1) = (BoxedUint::from(A1[i]), BoxedUint::from(A1[j]));
+        let r = Option::<BoxedUint>::from(a1.checked_mul(&b1));
+        let fits = P11[i][j][1] == 0;
+        s.cover(fits && A1[i] > 1 && A1[j] > 1);
+        match r { Some(v) => { assert!(fits); assert!(is_limbs(&v, &P11[i][j], 1)); } None => assert!(!fits) }
+        let (a2, b2) = (BoxedUint::from(A2[i]), BoxedUint::from(A2[j]));
+        let r = Option::<BoxedUint>::from(a2.checked_mul(&b2));
+        let fits = P22[i][j][2] == 0 && P22[i][j][3] == 0;
+        match r { Some(v) => { assert!(fits); assert!(is_limbs(&v, &P22[i][j], 2)); } None => assert!(!fits) }
+    }
+    /// checked_mul at (1,2) / (2,1): the width of self decides
+    #[kani::unwind(6)]
+    fn c03_boxed_checked_mul_mixed(s) {
+        let (i, j) = idx2(s);
+        let (a, b) = (BoxedUint::from(A1[i]), BoxedUint::from(A2[j]));
+        let r = Option::<BoxedUint>::from(a.checked_mul(&b));
+        let fits = P12[i][j][1] == 0 && P12[i][j][2] == 0;
+        match r { Some(v) => { assert!(fits); assert!(is_limbs(&v, &P12[i][j], 1)); } None => assert!(!fits) }
+        let r = Option::<BoxedUint>::from(b.checked_mul(&a));
+        let fits = P12[i][j][2] == 0;
+        match r { Some(v) => { assert!(fits); assert!(is_limbs(&v, &P12[i][j], 2)); } None => assert!(!fits) }
+    }
+    /// `&a * &b` (the by-reference operator is the panicking checked form): the product when it fits one limb
+    #[kani::unwind(6)]
+    fn c03_boxed_ref_mul_operator_fits(s) {
+        let (i, j) = idx2(s);
+        s.assume(P11[i][j][1] == 0);
+        s.cover(A1[i] > 1 && A1[j] > 1);
+        let (a, b) = (BoxedUint::from(A1[i]), BoxedUint::from(A1[j]));
+        assert!(is_limbs(&(&a * &b), &P11[i][j], 1));
+    }
+    /// `&a * &b` panics exactly on overflow ("attempted to multiply with overflow")
+    #[kani::should_panic]
+    #[kani::unwind(6)]
+    fn c03_boxed_ref_mul_operator_overflow_panics(s) {
+        let (i, j) = idx2(s);
+        s.assume(P11[i][j][1] != 0);
+        let (a, b) = (BoxedUint::from(A1[i]), BoxedUint::from(A1[j]));
+        let _ = &a * &b;
+        returned_instead_of_panicking();
+    }
 }
